@@ -519,9 +519,59 @@ def write_refs(gx, gp):
         write_if_changed(os.path.join(gen, "%sGrammarRef.lean" % ns), emit_ref(ns, snap, order))
 
 
+def func_table(repo):
+    """the core function library as the evaluator declares it (xpath/src/eval/func.rs `table()`): name, least and greatest number
+    of arguments.  -> (entries, problems)"""
+    path = os.path.join(repo, "xpath/src/eval/func.rs")
+    try:
+        src = open(path).read()
+    except OSError as e:
+        return [], ["cannot read %s: %s" % (path, e)]
+    m = re.search(r"pub fn table\(\) -> Vec<Entry> \{(.*?)\n\}\n", src, re.S)
+    if not m:
+        return [], ["xpath/src/eval/func.rs: `pub fn table() -> Vec<Entry>` not found"]
+    body = m.group(1)
+    ents, probs = [], []
+    for em in re.finditer(r"Entry \{(.*?)\}", body, re.S):
+        f = em.group(1)
+        nm = re.search(r'local_part:\s*"([^"]*)"\.to_string\(\)', f)
+        ns = re.search(r"namespace_uri:\s*(None|Some)", f)
+        ar = re.search(r"args:\s*\(\s*(\d+)\s*\.\.\s*(\d+|usize::MAX)\s*\)", f)
+        if not (nm and ns and ar):
+            probs.append("xpath/src/eval/func.rs: an entry of the function table has a shape the translator does not know: %s" % " ".join(f.split())[:120])
+            continue
+        if ns.group(1) != "None":
+            probs.append("xpath/src/eval/func.rs: function %s is declared in a namespace (the model knows the core library only)" % nm.group(1))
+        ents.append((nm.group(1), int(ar.group(1)), None if ar.group(2) == "usize::MAX" else int(ar.group(2))))
+    if body.count("Entry {") != len(ents):
+        probs.append("xpath/src/eval/func.rs: %d entries in the function table, %d understood" % (body.count("Entry {"), len(ents)))
+    if not re.search(r"func\.args\(\)\.len\(\)\s*<\s*entry\.min_args\(\)\s*\|\|\s*entry\.max_args\(\)\s*<\s*func\.args\(\)\.len\(\)",
+                     open(os.path.join(repo, "xpath/src/eval/mod.rs")).read()):
+        probs.append("xpath/src/eval/mod.rs: the arity check `len < min_args || max_args < len` was not found as last read")
+    return ents, probs
+
+
+def emit_funcs(ents):
+    row = lambda e: '("%s", %d, %s)' % (e[0], e[1], "none" if e[2] is None else "some %d" % e[2])
+    return "\n".join([
+        "/-! GENERATED on every check run by tools/translate.py from xpath/src/eval/func.rs (`table()`): the core function library as the",
+        "    evaluator declares it - name, least and greatest number of arguments (`none` = no upper bound).  Thm/C06",
+        "    `arity_table_is_the_sources` states that the model's table is this one. -/",
+        "namespace XmlRs.Gen.XPathFuncs", "",
+        "def table : List (String × Nat × Option Nat) :=", "  [" + ",\n   ".join(row(e) for e in ents) + "]", "",
+        "end XmlRs.Gen.XPathFuncs", ""])
+
+
+FUNC_PROBLEMS = []
+
+
 def translate_all(repo=None):
     repo = repo or lib.REPO
     gen = os.path.join(lib.LEAN, "XmlRsModel", "Gen")
+    ents, probs = func_table(repo)
+    FUNC_PROBLEMS[:] = probs
+    if ents:
+        write_if_changed(os.path.join(gen, "XPathFuncs.lean"), emit_funcs(ents))
     gx = Grammar("xml")
     gx.add_file(os.path.join(repo, "nom/src/lib.rs"))
     gx.add_file(os.path.join(repo, "parser/src/lib.rs"))
